@@ -31,6 +31,8 @@ import (
 
 const (
 	c14Origin      = "example.com/c14log"
+	c14OriginB     = "example.com/c14-second-log" // a second configured log with its own key
+	c14BMax        = 2
 	c14OtherOrigin = "example.com/c14-unknown-log"
 	c14WitnessName = "example.com/c14witness"
 	c14MainMax     = 4
@@ -41,14 +43,24 @@ const (
 
 // c14CP names a ground-truth checkpoint.
 type c14CP struct {
-	Branch string `json:"branch"` // "main" | "fork"
+	Branch string `json:"branch"` // "main" | "fork" (origin A) | "b" (the second log)
 	N      int    `json:"n"`
 }
 
 func (c c14CP) String() string { return fmt.Sprintf("%s%d", c.Branch, c.N) }
 
+// c14Org is one configured log.
+type c14Org struct {
+	id     string // "a" | "b"
+	origin string
+	key    *c14EdKey
+	cpKey  string // lock-store key (hex) of its checkpoint record
+	pubKey string // object key of its published checkpoint
+}
+
 type c14Truth struct {
-	main, fork []c14Hash
+	main, fork, blog []c14Hash
+	orgA, orgB       *c14Org
 	byRoot     map[c14Hash][]c14CP
 
 	logKey, otherLogKey, unknownLogKey *c14EdKey
@@ -72,7 +84,10 @@ func c14GetTruth() *c14Truth {
 	for i := c14ForkAt; i < c14ForkMax; i++ {
 		t.fork = append(t.fork, verifmc.LeafHash([]byte(fmt.Sprintf("c14 fork leaf %d", i))))
 	}
-	for _, c := range c14AllCPs() {
+	for i := 0; i < c14BMax; i++ {
+		t.blog = append(t.blog, verifmc.LeafHash([]byte(fmt.Sprintf("c14 second log leaf %d", i))))
+	}
+	for _, c := range append(c14AllCPs(), c14BCPs()...) {
 		r := t.root(c)
 		t.byRoot[r] = append(t.byRoot[r], c)
 	}
@@ -89,6 +104,11 @@ func c14GetTruth() *c14Truth {
 	t.cpKey = hex.EncodeToString(k[:])
 	oh := sha256.Sum256([]byte(c14Origin))
 	t.pubKey = hex.EncodeToString(oh[:]) + "/checkpoint"
+	t.orgA = &c14Org{id: "a", origin: c14Origin, key: t.logKey, cpKey: t.cpKey, pubKey: t.pubKey}
+	kb := backendKeyForCheckpoint(cfg, c14OriginB)
+	ohb := sha256.Sum256([]byte(c14OriginB))
+	t.orgB = &c14Org{id: "b", origin: c14OriginB, key: c14NewEdKey(c14OriginB, "second log"),
+		cpKey: hex.EncodeToString(kb[:]), pubKey: hex.EncodeToString(ohb[:]) + "/checkpoint"}
 	c14T = t
 	return t
 }
@@ -104,11 +124,46 @@ func c14AllCPs() []c14CP {
 	return out
 }
 
+func c14BCPs() []c14CP {
+	var out []c14CP
+	for n := 1; n <= c14BMax; n++ {
+		out = append(out, c14CP{"b", n})
+	}
+	return out
+}
+
 func (t *c14Truth) leaves(branch string) []c14Hash {
-	if branch == "fork" {
+	switch branch {
+	case "fork":
 		return t.fork
+	case "b":
+		return t.blog
 	}
 	return t.main
+}
+
+// org returns the log a checkpoint belongs to, other the other configured log.
+func (t *c14Truth) org(c c14CP) *c14Org {
+	if c.Branch == "b" {
+		return t.orgB
+	}
+	return t.orgA
+}
+
+func (t *c14Truth) other(o *c14Org) *c14Org {
+	if o == t.orgB {
+		return t.orgA
+	}
+	return t.orgB
+}
+
+func (t *c14Truth) orgByKey(key string) *c14Org {
+	for _, o := range []*c14Org{t.orgA, t.orgB} {
+		if key == o.cpKey || key == o.pubKey {
+			return o
+		}
+	}
+	return nil
 }
 
 func (t *c14Truth) root(c c14CP) c14Hash { return verifmc.MTH(t.leaves(c.Branch)[:c.N]) }
@@ -123,9 +178,9 @@ func (t *c14Truth) prefixOf(aN int, aRoot c14Hash, b c14CP) bool {
 }
 
 // identify maps a (size, root) to a ground-truth checkpoint.
-func (t *c14Truth) identify(n int, root c14Hash) (c14CP, bool) {
+func (t *c14Truth) identify(o *c14Org, n int, root c14Hash) (c14CP, bool) {
 	for _, c := range t.byRoot[root] {
-		if c.N == n {
+		if c.N == n && t.org(c) == o {
 			return c, true
 		}
 	}
@@ -141,7 +196,7 @@ type c14Req struct {
 	Old    int    `json:"old,omitempty"`
 	CP     c14CP  `json:"cp,omitempty"`
 	Proof  string `json:"proof,omitempty"` // ok flip other trunc extra badb64
-	Sig    string `json:"sig,omitempty"`   // valid corrupt unknownkey forgedwitness extension noncanon
+	Sig    string `json:"sig,omitempty"`   // valid corrupt unknownkey wronglog forgedwitness extension noncanon
 	Raw    string `json:"raw,omitempty"`   // name of a malformed body
 	Fault  string `json:"fault,omitempty"` // Part A only: fetch-err replace-na replace-ap upload-na upload-ap
 	Client bool   `json:"client,omitempty"`
@@ -162,7 +217,8 @@ func (r c14Req) String() string {
 }
 
 var c14Proofs = []string{"ok", "flip", "other", "trunc", "extra", "badb64"}
-var c14Sigs = []string{"valid", "corrupt", "unknownkey", "forgedwitness", "extension", "noncanon"}
+var c14Sigs = []string{"valid", "corrupt", "unknownkey", "wronglog", "forgedwitness", "extension", "noncanon"}
+var c14SigsB = []string{"valid", "wronglog", "corrupt"}
 var c14Raws = []string{"empty", "no-blank-line", "no-separator", "old-word", "old-not-number", "old-negative", "old-huge", "old-leading-zero", "old-maxint64", "unknown-origin", "unknown-origin-bad-proof-line"}
 var c14Faults = []string{"fetch-err", "replace-na", "replace-ap", "upload-na", "upload-ap"}
 
@@ -185,6 +241,9 @@ func (t *c14Truth) proofFor(r c14Req) (proof []c14Hash, badLine bool) {
 			p[0][7] ^= 0x10
 		}
 	case "other":
+		if r.CP.Branch == "b" {
+			break
+		}
 		o := c14CP{"main", r.CP.N}
 		if r.CP.Branch == "main" {
 			o.Branch = "fork"
@@ -209,14 +268,24 @@ func (t *c14Truth) proofFor(r c14Req) (proof []c14Hash, badLine bool) {
 // noteFor returns the signed note of the variant.
 func (t *c14Truth) noteFor(r c14Req) string {
 	root := t.root(r.CP)
-	text := c14CheckpointText(c14Origin, r.CP.N, root)
+	org := t.org(r.CP)
+	text := c14CheckpointText(org.origin, r.CP.N, root)
 	switch r.Sig {
 	case "valid":
-		return text + "\n" + t.logKey.logSign(text)
+		return text + "\n" + org.key.logSign(text)
 	case "corrupt":
-		name, kh, blob, _ := c14ParseSigLine(t.logKey.logSign(text))
+		name, kh, blob, _ := c14ParseSigLine(org.key.logSign(text))
 		blob[5] ^= 0x04
 		return text + "\n" + c14SigLine(name, kh, blob)
+	case "wronglog":
+		// the checkpoint of this origin, validly signed, but only by the key of
+		// the OTHER configured log (signature line under that log's name)
+		return text + "\n" + t.other(org).key.logSign(text)
+	}
+	if org != t.orgA {
+		panic("c14: signature variant " + r.Sig + " is only defined for origin A")
+	}
+	switch r.Sig {
 	case "unknownkey":
 		return text + "\n" + t.otherLogKey.logSign(text)
 	case "forgedwitness":
@@ -324,7 +393,7 @@ func (t *c14Truth) renderBody(r c14Req) (string, c14Facts) {
 	b.WriteString(t.noteFor(r))
 	f := c14Facts{
 		Malformed:    badLine,
-		BadSignature: r.Sig == "corrupt" || r.Sig == "unknownkey",
+		BadSignature: r.Sig == "corrupt" || r.Sig == "unknownkey" || r.Sig == "wronglog",
 		Extension:    r.Sig == "extension",
 		NonCanonical: r.Sig == "noncanon",
 		Old:          r.Old, N: r.CP.N, Root: t.root(r.CP), Proof: proof,
@@ -360,6 +429,15 @@ func c14Menu(withFaults bool) []c14Req {
 	for _, raw := range c14Raws {
 		add(c14Req{Kind: "raw", Raw: raw})
 	}
+	// the second configured log: its own requests, and its checkpoints signed
+	// only by the first log's key
+	for _, sig := range c14SigsB {
+		for _, cp := range c14BCPs() {
+			for old := 0; old <= cp.N; old++ {
+				add(c14Req{Kind: "add", Old: old, CP: cp, Proof: "ok", Sig: sig})
+			}
+		}
+	}
 	if withFaults {
 		for _, fl := range c14Faults {
 			for _, cp := range c14AllCPs() {
@@ -389,8 +467,10 @@ type c14Resp struct {
 type c14Pending struct {
 	req      c14Req
 	facts    c14Facts
-	startIdx int  // index into lockHist of the value current when it started
+	tr       *c14Track
+	startIdx int  // index into the origin's record history of the value current when it started
 	faulted  bool // an injected failure hit one of its operations
+	casLost  bool // its compare-and-swap was refused because the record had changed
 	commits  int  // applied lock replaces by this thread during the request
 	// commitIdx is the index into lockHist of the request's first own write.
 	commitIdx int
@@ -405,6 +485,16 @@ type c14Inst struct {
 	fl      *c14FaultLock
 	fb      *c14FaultBackend
 	crashed bool
+	// knownIdx: per origin id, index into the record history of the value this
+	// instance last read or wrote (what its cache can at best reflect).
+	knownIdx map[string]int
+}
+
+// c14Track is the monitor's view of one origin.
+type c14Track struct {
+	org      *c14Org
+	lockHist []c14Stored // every value the checkpoint record ever held, in order
+	cosigned []c14CP     // checkpoints of 200 responses, in response order
 }
 
 type c14World struct {
@@ -416,10 +506,12 @@ type c14World struct {
 	cur   *c14Inst
 
 	// monitor
-	lockHist   []c14Stored // every value the checkpoint key ever held, in order
-	pend       map[string]*c14Pending
-	cosigned   []c14CP // checkpoints of 200 responses, in response order
-	resps      []c14Resp
+	ta, tb *c14Track // origin A (the forked log) and the second configured log
+	pend   map[string]*c14Pending
+	resps  []c14Resp
+	// overlap: two live Witness instances share the stores (a restarted process
+	// overlapping with the one it replaces)
+	overlap bool
 	viol       []string
 	sequential bool
 	nEvents    int
@@ -448,13 +540,13 @@ var c14CanonMemo sync.Map // sha256(value) -> []byte
 
 func c14CanonVal(key string, val []byte) []byte {
 	t := c14GetTruth()
-	if key == t.cpKey || key == t.pubKey {
-		k := sha256.Sum256(val)
+	if o := t.orgByKey(key); o != nil {
+		k := sha256.Sum256(append([]byte(o.id), val...))
 		if v, ok := c14CanonMemo.Load(k); ok {
 			return v.([]byte)
 		}
 		var out []byte
-		s, err := c14ParseStored(c14Origin, val)
+		s, err := c14ParseStored(o.origin, val)
 		if err != nil {
 			out = append([]byte("unparseable:"), val...)
 		} else {
@@ -472,9 +564,12 @@ func c14NewWorld(sequential bool) *c14World {
 	t := c14GetTruth()
 	w := &c14World{t: t, lock: verifmc.NewStore("lock"), obj: verifmc.NewStore("obj"), pend: map[string]*c14Pending{}, sequential: sequential}
 	w.lock.Canon, w.obj.Canon = c14CanonVal, c14CanonVal
-	w.lock.Set(t.cfgKey, []byte(fmt.Sprintf(`{"log_meta":{%q:{"Verifiers":[%q]}}}`, c14Origin, t.logVKey)))
-	w.lock.Set(t.cpKey, []byte{})
-	w.lockHist = []c14Stored{{Empty: true, Root: sha256.Sum256(nil)}}
+	w.lock.Set(t.cfgKey, []byte(fmt.Sprintf(`{"log_meta":{%q:{"Verifiers":[%q]},%q:{"Verifiers":[%q]}}}`,
+		c14Origin, t.logVKey, c14OriginB, c14VKey(c14OriginB, c14AlgEd25519, t.orgB.key.pub))))
+	w.lock.Set(t.orgA.cpKey, []byte{})
+	w.lock.Set(t.orgB.cpKey, []byte{})
+	w.ta = &c14Track{org: t.orgA, lockHist: []c14Stored{{Empty: true, Root: sha256.Sum256(nil)}}}
+	w.tb = &c14Track{org: t.orgB, lockHist: []c14Stored{{Empty: true, Root: sha256.Sum256(nil)}}}
 	w.lock.OnEffect = w.onLock
 	w.obj.OnEffect = w.onObj
 	return w
@@ -549,12 +644,12 @@ func (b *c14FaultBackend) Metrics() []prometheus.Collector { return nil }
 // newInstance starts a Witness (NewWitness) on fresh handles of the same stores.
 func (w *c14World) newInstance(name string, quiet, faults bool) (*c14Inst, error) {
 	t := w.t
-	in := &c14Inst{name: name, lh: w.lock.Handle(name), bh: w.obj.Handle(name)}
+	in := &c14Inst{name: name, lh: w.lock.Handle(name), bh: w.obj.Handle(name), knownIdx: map[string]int{}}
 	in.lh.Quiet, in.bh.Quiet = quiet, quiet
 	in.lh.NoFaults, in.bh.NoFaults = !faults, !faults
 	// the configuration record is read once at start-up; failures of that read
 	// only make the start-up fail, they are not what this property is about
-	in.lh.FaultFilter = func(op, key string) bool { return key == t.cpKey }
+	in.lh.FaultFilter = func(op, key string) bool { return t.orgByKey(key) != nil }
 	in.fl = &c14FaultLock{inner: &ctlog.MCLock{H: in.lh}}
 	in.fb = &c14FaultBackend{inner: &ctlog.MCBackend{H: in.bh}}
 	cfg := &Config{
@@ -572,6 +667,8 @@ func (w *c14World) newInstance(name string, quiet, faults bool) (*c14Inst, error
 	in.w = wt
 	in.h = wt.Handler()
 	w.mu.Lock()
+	// a fresh instance has no cache: whatever it learns it reads from now on
+	in.knownIdx["a"], in.knownIdx["b"] = len(w.ta.lockHist)-1, len(w.tb.lockHist)-1
 	w.insts = append(w.insts, in)
 	w.cur = in
 	w.mu.Unlock()
@@ -611,13 +708,31 @@ func (w *c14World) threadName() string {
 	return "seq"
 }
 
+func (w *c14World) track(o *c14Org) *c14Track {
+	if o == w.t.orgB {
+		return w.tb
+	}
+	return w.ta
+}
+
+func (w *c14World) instByHandle(name string) *c14Inst {
+	for _, in := range w.insts {
+		if in.name == name {
+			return in
+		}
+	}
+	return nil
+}
+
 // onLock is called after every lock-store operation that was issued.
 func (w *c14World) onLock(ev verifmc.Event) {
-	if ev.Key != w.t.cpKey {
+	org := w.t.orgByKey(ev.Key)
+	if org == nil {
 		return
 	}
 	w.mu.Lock()
 	defer w.mu.Unlock()
+	tr := w.track(org)
 	w.nEvents++
 	th := ev.Thread
 	if th == "" {
@@ -627,30 +742,43 @@ func (w *c14World) onLock(ev verifmc.Event) {
 	if ev.Err == verifmc.ErrInjected.Error() && p != nil {
 		p.faulted = true
 	}
-	if ev.Op == "fetch" || !ev.Applied {
+	if ev.Err == verifmc.ErrCASMismatch.Error() && p != nil {
+		p.casLost = true
+	}
+	in := w.instByHandle(ev.Handle)
+	if ev.Op == "fetch" {
+		if ev.Applied && in != nil {
+			in.knownIdx[org.id] = len(tr.lockHist) - 1
+		}
 		return
 	}
-	cur := w.lockHist[len(w.lockHist)-1]
+	if !ev.Applied {
+		return
+	}
+	cur := tr.lockHist[len(tr.lockHist)-1]
 	// (4) the lock-store history is a chain
-	old, err := c14ParseStored(c14Origin, ev.Old)
+	old, err := c14ParseStored(org.origin, ev.Old)
 	if err != nil || old.canon() != cur.canon() {
 		w.violateLocked("lock-store history is not a chain: %s over a value %q that is not the previous one %s", ev.Op, c14Short(ev.Old), cur.canon())
 	}
-	nw, err := c14ParseStored(c14Origin, ev.Data)
+	nw, err := c14ParseStored(org.origin, ev.Data)
 	if err != nil || nw.Empty {
-		w.violateLocked("the witness recorded a value that is not a canonical signed checkpoint for the origin: %v: %q", err, c14Short(ev.Data))
-		w.lockHist = append(w.lockHist, c14Stored{N: -1})
+		w.violateLocked("the witness recorded for %s a value that is not a canonical signed checkpoint for the origin: %v: %q", org.origin, err, c14Short(ev.Data))
+		tr.lockHist = append(tr.lockHist, c14Stored{N: -1})
 		return
 	}
-	w.lockHist = append(w.lockHist, nw)
+	tr.lockHist = append(tr.lockHist, nw)
+	if in != nil {
+		in.knownIdx[org.id] = len(tr.lockHist) - 1
+	}
 	if ev.Op != "replace" {
 		w.violateLocked("unexpected %s of the checkpoint record", ev.Op)
 		return
 	}
-	w.checkSignedLocked("recorded checkpoint", nw, p == nil || !p.facts.NonCanonical)
-	cp, known := w.t.identify(nw.N, nw.Root)
+	w.checkSignedLocked("recorded checkpoint", org, nw, p == nil || !p.facts.NonCanonical)
+	cp, known := w.t.identify(org, nw.N, nw.Root)
 	if !known {
-		w.violateLocked("recorded checkpoint (size %d root %x) is none of the log's checkpoints", nw.N, nw.Root[:6])
+		w.violateLocked("recorded checkpoint (size %d root %x) is none of the checkpoints of %s", nw.N, nw.Root[:6], org.origin)
 		return
 	}
 	// one chain of consistent trees of non-decreasing size
@@ -661,8 +789,12 @@ func (w *c14World) onLock(ev verifmc.Event) {
 		w.violateLocked("the checkpoint record changed to %s outside any request", cp)
 		return
 	}
+	if p.tr != tr {
+		w.violateLocked("request %s changed the record of the other log %s to %s", p.req, org.origin, cp)
+		return
+	}
 	if p.commits == 0 {
-		p.commitIdx = len(w.lockHist) - 1
+		p.commitIdx = len(tr.lockHist) - 1
 	}
 	p.commits++
 	if p.req.Kind != "add" || p.req.CP != cp {
@@ -690,25 +822,26 @@ func (w *c14World) onObj(ev verifmc.Event) {
 	if ev.Op != "upload" || !ev.Applied {
 		return
 	}
-	if ev.Key != w.t.pubKey {
+	org := w.t.orgByKey(ev.Key)
+	if org == nil || ev.Key != org.pubKey {
 		w.violateLocked("add-checkpoint wrote object %q", ev.Key)
 		return
 	}
-	s, err := c14ParseStored(c14Origin, ev.Data)
+	s, err := c14ParseStored(org.origin, ev.Data)
 	if err != nil || s.Empty {
 		w.violateLocked("published checkpoint is not a canonical signed checkpoint: %v", err)
 		return
 	}
-	w.checkSignedLocked("published checkpoint", s, p == nil || !p.facts.NonCanonical)
+	w.checkSignedLocked("published checkpoint", org, s, p == nil || !p.facts.NonCanonical)
 	// published only after it was recorded
 	found := false
-	for _, h := range w.lockHist {
+	for _, h := range w.track(org).lockHist {
 		if !h.Empty && h.N == s.N && h.Root == s.Root {
 			found = true
 		}
 	}
 	if !found {
-		w.violateLocked("checkpoint size %d published at %s before it was recorded in the lock store", s.N, ev.Key)
+		w.violateLocked("checkpoint size %d published at %s although it was never recorded in the lock store", s.N, ev.Key)
 	}
 }
 
@@ -720,23 +853,23 @@ func (w *c14World) onObj(ev verifmc.Event) {
 // encoding: the witness signs and stores the re-encoding, on which the log's
 // signature (made over the submitted bytes) cannot verify; the property only
 // asks that the submitted checkpoint was signed by the log.
-func (w *c14World) checkSignedLocked(what string, s c14Stored, requireLog bool) {
+func (w *c14World) checkSignedLocked(what string, org *c14Org, s c14Stored, requireLog bool) {
 	logOK := !requireLog
 	for _, l := range s.Lines {
 		name, _, _, _ := c14ParseSigLine(l)
 		switch name {
-		case c14Origin:
-			if w.t.logKey.refVerifyLogLine(s.Text, l) {
+		case org.origin:
+			if org.key.refVerifyLogLine(s.Text, l) {
 				logOK = true
 			}
 		case c14WitnessName:
-			if !w.t.wEd.refVerifyCosigLine(s.Text, l) && !w.t.wML.refVerifyCheckpointLine(c14Origin, s.N, s.Root, l) {
+			if !w.t.wEd.refVerifyCosigLine(s.Text, l) && !w.t.wML.refVerifyCheckpointLine(org.origin, s.N, s.Root, l) {
 				w.violateLocked("%s carries a line under the witness's name that is not a valid cosignature of (origin, %d, root): %q", what, s.N, c14Short([]byte(l)))
 			}
 		}
 	}
 	if !logOK {
-		w.violateLocked("%s (size %d) carries no valid signature by the log's key", what, s.N)
+		w.violateLocked("%s (%s size %d) carries no valid signature by that log's own key", what, org.origin, s.N)
 	}
 }
 
@@ -751,7 +884,18 @@ func c14Short(b []byte) string {
 func (w *c14World) begin(th string, in *c14Inst, r c14Req, f c14Facts) *c14Pending {
 	w.mu.Lock()
 	defer w.mu.Unlock()
-	p := &c14Pending{req: r, facts: f, startIdx: len(w.lockHist) - 1, inst: in}
+	tr := w.ta
+	if r.Kind == "add" {
+		tr = w.track(w.t.org(r.CP))
+	}
+	p := &c14Pending{req: r, facts: f, tr: tr, startIdx: len(tr.lockHist) - 1, inst: in}
+	if w.overlap {
+		// with a second live instance this one's cache may lag behind the record:
+		// its answers may refer to the last value it saw
+		if k := in.knownIdx[tr.org.id]; k < p.startIdx {
+			p.startIdx = k
+		}
+	}
 	w.pend[th] = p
 	return p
 }
@@ -800,7 +944,9 @@ func (w *c14World) judge(p *c14Pending, resp c14Resp) {
 	}
 	w.resps = append(w.resps, resp)
 	r := p.req
-	hist := w.lockHist[p.startIdx:]
+	tr := p.tr
+	org := tr.org
+	hist := tr.lockHist[p.startIdx:]
 
 	// error responses carry no signature line
 	if resp.Status != 200 && strings.Contains(resp.Body, "— ") {
@@ -809,7 +955,9 @@ func (w *c14World) judge(p *c14Pending, resp c14Resp) {
 
 	// (1) protocol answers
 	if resp.Status >= 500 {
-		if !p.faulted {
+		// with two live instances a refused compare-and-swap is the legitimate
+		// way to lose against the other instance (500, then 409 on the retry)
+		if !p.faulted && !(w.overlap && p.casLost) {
 			w.violateLocked("request %s answered %d %q without any storage or lock failure (record %s)", r, resp.Status, strings.TrimSpace(resp.Body), hist[len(hist)-1].canon())
 		}
 	} else {
@@ -819,7 +967,7 @@ func (w *c14World) judge(p *c14Pending, resp c14Resp) {
 		// request's own write (if any)
 		before := hist
 		if p.commits > 0 {
-			before = w.lockHist[p.startIdx:p.commitIdx]
+			before = tr.lockHist[p.startIdx:p.commitIdx]
 		}
 		for _, rec := range before {
 			if rec.N < 0 {
@@ -851,6 +999,9 @@ func (w *c14World) judge(p *c14Pending, resp c14Resp) {
 		if p.faulted && resp.Status == 200 && p.commits == 0 {
 			w.violateLocked("request %s answered 200 although its lock-store write failed and was not applied", r)
 		}
+		if resp.Status != 200 && !p.faulted && p.commits > 0 {
+			w.violateLocked("request %s was refused (%d) but changed the record", r, resp.Status)
+		}
 	}
 	if resp.Status != 200 {
 		return
@@ -862,7 +1013,7 @@ func (w *c14World) judge(p *c14Pending, resp c14Resp) {
 
 	// (2) cosignature lines cover exactly the re-encoded (origin, size, root)
 	root := w.t.root(r.CP)
-	text := c14CheckpointText(c14Origin, r.CP.N, root)
+	text := c14CheckpointText(org.origin, r.CP.N, root)
 	lines := c14SplitLines([]byte(resp.Body))
 	if len(lines) == 0 {
 		w.violateLocked("200 response to %s carries no cosignature", r)
@@ -872,7 +1023,7 @@ func (w *c14World) judge(p *c14Pending, resp c14Resp) {
 		switch {
 		case w.t.wEd.refVerifyCosigLine(text, l):
 			nEd++
-		case w.t.wML.refVerifyCheckpointLine(c14Origin, r.CP.N, root, l):
+		case w.t.wML.refVerifyCheckpointLine(org.origin, r.CP.N, root, l):
 			nML++
 		default:
 			w.violateLocked("200 response to %s: line is not a valid witness cosignature over the re-encoded (origin, %d, root): %q", r, r.CP.N, c14Short([]byte(l)))
@@ -897,7 +1048,7 @@ func (w *c14World) judge(p *c14Pending, resp c14Resp) {
 	}
 
 	// (3) consistent with everything cosigned before; no two conflicting requests
-	for _, c := range w.cosigned {
+	for _, c := range tr.cosigned {
 		lo, hi := c, r.CP
 		if lo.N > hi.N {
 			lo, hi = hi, lo
@@ -909,7 +1060,7 @@ func (w *c14World) judge(p *c14Pending, resp c14Resp) {
 			w.violateLocked("cosigned %s after %s: size decreased", r.CP, c)
 		}
 	}
-	w.cosigned = append(w.cosigned, r.CP)
+	tr.cosigned = append(tr.cosigned, r.CP)
 }
 
 func c14Contains(xs []string, x string) bool {
@@ -958,9 +1109,9 @@ func (w *c14World) keyFn(h hash.Hash) {
 	sort.Strings(ths)
 	for _, th := range ths {
 		p := w.pend[th]
-		fmt.Fprintf(h, "P|%s|%s|%d|%v|%d|", th, p.req, p.startIdx, p.faulted, p.commits)
+		fmt.Fprintf(h, "P|%s|%s|%s|%d|%v|%v|%d|", th, p.inst.name, p.req, p.startIdx, p.faulted, p.casLost, p.commits)
 	}
-	fmt.Fprintf(h, "H|%s|", c14HistCanon(w.lockHist))
+	fmt.Fprintf(h, "H|%s|%s|", c14HistCanon(w.ta.lockHist), c14HistCanon(w.tb.lockHist))
 	for _, r := range w.resps {
 		fmt.Fprintf(h, "R|%s|%s|%s|", r.Thread, r.Req, c14RespCanon(r))
 	}
